@@ -154,6 +154,26 @@ func (e *Env) ev(t *Term) Val {
 			fail("slice [%d:%d] of %d bytes", t.I, t.J, len(b))
 		}
 		return Val{B: b[t.I:t.J]}
+	case "dslice":
+		b := e.bytesOf(t.A[0])
+		i, j := e.intOf(t.A[1]), e.intOf(t.A[2])
+		if !i.IsInt64() || !j.IsInt64() || i.Int64() < 0 || j.Int64() < i.Int64() || j.Int64() > int64(len(b)) {
+			fail("dslice [%s:%s] of %d bytes", i, j, len(b))
+		}
+		return Val{B: b[i.Int64():j.Int64()]}
+	case "sint_le":
+		b := rev(e.bytesOf(t.A[0]))
+		n := new(big.Int).SetBytes(b)
+		if len(b) > 0 && b[0]&0x80 != 0 {
+			n.Sub(n, new(big.Int).Lsh(big.NewInt(1), uint(8*len(b))))
+		}
+		return Val{N: n}
+	case "ige_e", "ige_d":
+		k, iv, d := e.bytesOf(t.A[0]), e.bytesOf(t.A[1]), e.bytesOf(t.A[2])
+		if len(k) != 32 || len(iv) != 32 || len(d) == 0 || len(d)%16 != 0 {
+			fail("%s: key %d iv %d data %d bytes", t.Op, len(k), len(iv), len(d))
+		}
+		return Val{B: refIGE(k, iv, d, t.Op == "ige_d")}
 	case "len":
 		return Int64(int64(len(e.bytesOf(t.A[0]))))
 	case "sha1":
@@ -225,4 +245,31 @@ func (e *Env) ev(t *Term) Val {
 	}
 	fail("unknown op %q", t.Op)
 	return Val{}
+}
+
+// refIGE is the harness's own whole-string IGE (independent of /repo); the C05 run checks it
+// against the specification's unfolded block-by-block definition.
+func refIGE(key, iv, in []byte, decrypt bool) []byte {
+	blk, _ := aes.NewCipher(key)
+	out := make([]byte, len(in))
+	a, b := iv[:16], iv[16:] // enc: a = previous cipher block, b = previous plain block
+	if decrypt {
+		a, b = iv[16:], iv[:16] // dec: a = previous plain block, b = previous cipher block
+	}
+	t := make([]byte, 16)
+	for i := 0; i < len(in); i += 16 {
+		for j := 0; j < 16; j++ {
+			t[j] = in[i+j] ^ a[j]
+		}
+		if decrypt {
+			blk.Decrypt(out[i:i+16], t)
+		} else {
+			blk.Encrypt(out[i:i+16], t)
+		}
+		for j := 0; j < 16; j++ {
+			out[i+j] ^= b[j]
+		}
+		a, b = out[i:i+16], in[i:i+16]
+	}
+	return out
 }
